@@ -31,7 +31,8 @@ LEVEL_TEXT = ("Kernel-checked Lean theorems, for all key columns and payloads (n
               "flag combination (including the swapped left-unique kernel used for right_unique only); "
               "Session.merge_left/right/inner return, for numeric and indexed-string payloads, the payloads mapped through "
               "whatever row pairs pandas.merge returned (the relational join by assumption); Session.get_index returns the "
-              "matching target row or a marker >= INVALID_INDEX. The model is tied to the code by differential execution on "
+              "matching target row or a marker >= INVALID_INDEX; Session.join puts the value of each run of foreign-key "
+              "indices at the destination row it names and 0 elsewhere. The model is tied to the code by differential execution on "
               "an exhaustive small scope and seeded random cases, JIT / interpreted / bounds-checked.")
 LEVEL_NOTE = ("The theorems are about the Lean model with the fixes D17, NC19a, NC19b, NC19c applied (fixes/*.patch; on the "
               "unfixed tree the check reports the witnesses in corpus/C19 as violations). The streamed form is proved by "
@@ -49,7 +50,10 @@ LEVEL_NOTE = ("The theorems are about the Lean model with the fixes D17, NC19a, 
               "theorems merge_left_maps_pandas_rows / merge_right_maps_pandas_rows / merge_inner_maps_pandas_rows say the "
               "payloads are mapped through the rows pandas returned (in range), whatever they are; that pandas returns the "
               "relational join is an assumption, compared by the correspondence (merge_inner as a multiset of pairs: pandas "
-              "does not keep the order of duplicate right rows). Session.join is modelled and compared, no theorem. Payload "
+              "does not keep the order of duplicate right rows). Session.join (join_correct) is proved for the documented "
+              "use: one value per run of fkey_indices, every key a destination row or a marker >= INVALID_INDEX, the rows "
+              "of a key contiguous; outside it (a key in two runs: the last run wins; negative keys wrap) the model mirrors "
+              "numpy's fancy-index assignment and is only compared. Payload "
               "values are unbounded Int in the model; dtype behaviour (int32/float64 payloads, fixed-string keys) is "
               "exercised by the correspondence only.")
 RULE = ("exhaustive: all pairs of non-decreasing key columns over a k-letter alphabet with length <= n (quick k=3,n=4; "
